@@ -1447,8 +1447,16 @@ def fam_surr(ctx, mods, r, k, cid):
     offd = ~np.eye(N, dtype=bool)
     # ---- Pearson --------------------------------------------------------
     name = "Surrogates.test_pearson_correlation"
-    ok, Pm = ctx.call(Surrogates.test_pearson_correlation, orig.copy(),
-                      surr.copy())
+    # the two arrays in a layout a caller may hold them in (a window of
+    # longer records, every second member of an ensemble, Fortran order, ...)
+    from pvm.gen.held import as_held
+    rh = ctx.rng("held-surr", cid)
+
+    def h(a):
+        b, tag = as_held(rh, a, forms=("c", "f", "view", "view", "readonly"))
+        ctx.count("surrogate_test_input_held_as:" + tag)
+        return b
+    ok, Pm = ctx.call(Surrogates.test_pearson_correlation, h(orig), h(surr))
     ctx.evals()
     if not ok:
         ctx.violation(f"{name}:raises:{type(Pm).__name__}",
@@ -1497,8 +1505,8 @@ def fam_surr(ctx, mods, r, k, cid):
     if Rmi is None or margin < 1e-7:
         ctx.count("surr_mi_borderline_skipped")
         return
-    ok, Mm = ctx.call(Surrogates.test_mutual_information, orig.copy(),
-                      surr.copy(), n_bins=n_bins)
+    ok, Mm = ctx.call(Surrogates.test_mutual_information, h(orig), h(surr),
+                      n_bins=n_bins)
     ctx.evals()
     if not ok:
         ctx.violation(f"{name}:raises:{type(Mm).__name__}",
